@@ -12,6 +12,7 @@ CONSTANTS
   MayRevert = {}
   CheckAdmission = FALSE
   BestChoices = {TRUE, FALSE}
+  ChildOfBestIsBest = FALSE
   UseConflicts = TRUE
   TxTable <- TxTable0
 SYMMETRY ReaderSym
@@ -23,4 +24,5 @@ INVARIANT VersionsUnique
 INVARIANT ReaderTracks
 INVARIANT ReaderConverges
 INVARIANT ReadLands
+INVARIANT DrainConverges
 CHECK_DEADLOCK FALSE
